@@ -150,6 +150,9 @@ def stream_case(rng, mode, seeks=True, near_limit=False, n_ops=None, w_pref=None
             c.ops.append("corestate")
         elif seeks and mode != "ofb":
             c.ops.append(f"pos {rng.choice(list(SN_MAX))}")
+    if rng.random() < 0.3:
+        # the same keystream through the crate's public alias type (`ctr::Ctr32BE<C>`, `ofb::Ofb<C>`, `belt_ctr::BeltCtr<C>` …)
+        c.ops.append(f"aliasks {rng.choice([1, bs, 2 * bs + 1, (w + 1) * bs + 3])}")
     return c
 
 
